@@ -257,7 +257,11 @@ fn c17_coll(v: &[Val]) -> Result<bool, String> {
     for g in &l {
         let inside_ref = if g.mag * dir.mag == 0.0 { Some(false) } else {
             let ang = ang_dist(ga(&g.angle), ga(&dir.angle));
-            if (ang - half).abs() < 4e-8 + 4.0 * TOL { None } else { Some(ang <= half) }   // acos is ill-conditioned near 0 and pi
+            // exactly parallel members (same remainder bits, blade counts congruent mod 4) are at unsigned angle exactly 0:
+            // they sit on the surface of the cone of half-angle 0 and must be kept for every half-angle >= 0 ("at most")
+            let parallel = g.angle.rem().to_bits() == dir.angle.rem().to_bits() && g.angle.blade() % 4 == dir.angle.blade() % 4;
+            if parallel && half >= 0.0 && g.mag >= 1e-100 && dir.mag >= 1e-100 && g.mag * dir.mag <= 1e200 { Some(true) }
+            else if (ang - half).abs() < 4e-8 + 4.0 * TOL { None } else { Some(ang <= half) }   // acos is ill-conditioned near 0 and pi
         };
         let taken = matches!(cur, Some(s) if same_geonum(s, g));
         match inside_ref {
